@@ -148,27 +148,62 @@ def check_model_total(ctx, fi, total):
             ctx.ob('pass-through', fi, c, arg is not None and U(arg) == total,
                    'the model must be constructed with the (supplied or estimated) total `%s`; receives `%s`'
                    % (total, U(arg) if arg is not None else 'the default 1.0'))
+    from ..engines.solvers import dispatch_tables, table_constructions
+    cls = fi.qualname.split('.')[0]
+    for c, tname, table in table_constructions(fi, dispatch_tables(ctx.repo, fi.rel, cls)):
+        n += 1
+        arg = kwarg(c, 'total', 2)
+        ctx.ob('pass-through', fi, c, arg is not None and U(arg) == total,
+               'the model (constructed through the dispatch table `%s`) must receive the (supplied or estimated) total `%s`; receives `%s`'
+               % (tname, total, U(arg) if arg is not None else 'the default 1.0'))
     if n == 0:
         raise AnalysisError('%s: no model construction found' % fi.qualname)
-    # the object published as self.model must be one of those constructions (or get `.total = total` right away)
+    # the object published as self.model must be one of those constructions (or get `.total = total` right away);
+    # copies through locals (`model = ret; ret = oracle`) are followed
+    table_ctor_names = {c.func.id for c, _, _ in table_constructions(fi, dispatch_tables(ctx.repo, fi.rel, cls))}
+    assigns = {}
+    for s_ in walk_shallow(fi.node):
+        if isinstance(s_, ast.Assign) and len(s_.targets) == 1 and isinstance(s_.targets[0], ast.Name):
+            assigns.setdefault(s_.targets[0].id, []).append(s_)
+
+    def total_set_after(s_, names):
+        par = getattr(s_, '_parent', None)
+        for blk in (getattr(par, 'body', []), getattr(par, 'orelse', [])):
+            if s_ in blk:
+                for other in blk:
+                    if isinstance(other, ast.Assign) and isinstance(other.targets[0], ast.Attribute) and other.targets[0].attr == 'total' \
+                            and U(other.targets[0].value) in names and U(other.value) == total:
+                        return True
+        return False
+
+    def built_with_total(name, seen):
+        """every definition of `name` is a model construction, or an object that is given `.total = total` in the same block"""
+        if name in seen or name not in assigns:
+            return False, None
+        seen = seen | {name}
+        for s_ in assigns[name]:
+            v = s_.value
+            if isinstance(v, ast.Call) and isinstance(v.func, ast.Name) and (v.func.id in ('GraphicalModel', 'RegionGraph', 'FactorGraph')
+                                                                             or v.func.id in table_ctor_names):
+                continue
+            if total_set_after(s_, {name, U(v)}):
+                continue
+            if isinstance(v, ast.Name):
+                ok, bad = built_with_total(v.id, seen)
+                if ok:
+                    continue
+                return False, bad or s_
+            return False, s_
+        return True, None
     pub = [s_ for s_ in walk_shallow(fi.node) if isinstance(s_, ast.Assign) and any(U(t) == 'self.model' for t in s_.targets)]
     for p_ in pub:
-        name = U(p_.value)
-        for s_ in walk_shallow(fi.node):
-            if isinstance(s_, ast.Assign) and len(s_.targets) == 1 and U(s_.targets[0]) == name:
-                v = s_.value
-                ctor = isinstance(v, ast.Call) and isinstance(v.func, ast.Name) and v.func.id in ('GraphicalModel', 'RegionGraph', 'FactorGraph')
-                sets_total = False
-                par = getattr(s_, '_parent', None)
-                body = getattr(par, 'body', []) if par is not None else []
-                for blk in (getattr(par, 'body', []), getattr(par, 'orelse', [])):
-                    if s_ in blk:
-                        for nxt in blk[blk.index(s_) + 1:]:
-                            if isinstance(nxt, ast.Assign) and U(nxt.targets[0]) == name + '.total' and U(nxt.value) == total:
-                                sets_total = True
-                ctx.ob('pass-through', fi, s_, ctor or sets_total,
-                       'the model published as self.model must be built with `%s` (or be given `.total = %s`); `%s` is neither: a reused '
-                       'object keeps the total of an earlier call' % (total, total, U(s_)[:70]))
+        if not isinstance(p_.value, ast.Name):
+            continue
+        ok, bad = built_with_total(p_.value.id, frozenset())
+        where = bad or p_
+        ctx.ob('pass-through', fi, where, ok,
+               'the model published as self.model must be built with `%s` (or be given `.total = %s`); `%s` is neither: a reused '
+               'object keeps the total of an earlier call' % (total, total, U(where)[:70]), construct='total of the published model' if ok else None)
 
 
 EMPTY_INITS = ('np.array([])', 'numpy.array([])', '[]', 'list()', 'np.empty(0)', 'np.zeros(0)', 'np.array([],dtype=float)')
